@@ -65,13 +65,13 @@ async def _probe(client, view, errors, where):
             errors.append(f'{where}: server lists no messages, client held {held}')
 
 
-async def scenario(victim_prog, mut_prog, check_convergence=True):
+async def scenario(victim_prog, mut_prog, check_convergence=True, examine=False, probe_each=True):
     """returns (errors, signature)"""
     errors = []
     w = await World().start()
     a = await w.client('a')
     b = await w.client('b')
-    ra = await a.cmd(b'SELECT INBOX')
+    ra = await a.cmd(b'EXAMINE INBOX' if examine else b'SELECT INBOX')
     await b.cmd(b'SELECT INBOX')
     view = ClientView()
     for u in ra['untagged']:
@@ -103,11 +103,18 @@ async def scenario(victim_prog, mut_prog, check_convergence=True):
         errors.extend(view.errors)
         view.errors.clear()
         sig.append((vc, mk, tuple(re.sub(rb'\d+', b'#', u[:24]) for u in r['untagged']), r['tagged'][:12]))
-        await _probe(a, view, errors, where)
+        if probe_each:
+            await _probe(a, view, errors, where)
         if errors:
             break
     if check_convergence and not errors:
-        # quiescent point: NOOP, then the view (uids) must equal the real mailbox contents
+        # a last change by the other session (when the program carries one more mutation than commands), then
+        # the quiescent point: NOOP, and the view (uids) must equal the real mailbox contents
+        for m in (MUTATIONS[mut_prog[len(victim_prog)]] if len(mut_prog) > len(victim_prog) else []):
+            if isinstance(m, tuple):
+                await b.cmd(m[0], m[1])
+            else:
+                await b.cmd(m)
         r = await a.cmd(b'NOOP')
         for u in r['untagged']:
             view.apply(u, 'final noop')
@@ -125,9 +132,11 @@ async def scenario(victim_prog, mut_prog, check_convergence=True):
 
 
 def _worker(args):
-    vp, mp_ = args
+    vp, mp_ = args[0], args[1]
+    examine = len(args) > 2 and args[2]
+    probe_each = not (len(args) > 3 and args[3])
     try:
-        errs, sig = run(scenario(vp, mp_))
+        errs, sig = run(scenario(vp, mp_, examine=examine, probe_each=probe_each))
     except Exception as exc:    # noqa
         return args, [f'harness exception {exc!r}'], ()
     return args, errs, sig
@@ -145,6 +154,18 @@ def enumerate_scenarios(tier):
     for vp in itertools.product(vcs, repeat=n):
         for mp_ in itertools.product(muts, repeat=n):
             yield vp, mp_
+    # a read-only (EXAMINE) victim: its STORE / EXPUNGE / MOVE are refused, and a refused command must not
+    # disturb what the following commands report
+    ro = [VICTIM_CMDS[i] for i in (0, 2, 4, 6, 7, 10, 12, 14)]
+    for vp in itertools.product(ro, repeat=2):
+        for mp_ in itertools.product(['none', 'expunge-low', 'append', 'flag'], repeat=2):
+            yield vp, mp_, True
+    # no probing between commands (a probe is itself a successful command and would hide state left behind by
+    # a refused one); one more mutation before the final NOOP
+    for ex in (False, True):
+        for vp in itertools.product(ro, repeat=2):
+            for mp_ in itertools.product(['none', 'expunge-low', 'append'], repeat=3):
+                yield vp, mp_, ex, True
     if tier != 'quick':
         small = [VICTIM_CMDS[i] for i in (0, 2, 4, 6, 7, 12)]
         for vp in itertools.product(small, repeat=3):
